@@ -352,6 +352,24 @@ func (e *errEngine) declaredType(v ssa.Value, depth int) bool {
 			}
 		}
 		return found
+	case *ssa.Call:
+		// a helper that chooses the error type: every return is a declared constant
+		callee := x.Call.StaticCallee()
+		if callee == nil || len(callee.Blocks) == 0 || !e.c.G.InSc[callee] {
+			return false
+		}
+		rets := 0
+		for _, b := range callee.Blocks {
+			if ret, ok := b.Instrs[len(b.Instrs)-1].(*ssa.Return); ok {
+				if len(ret.Results) != 1 || !e.declaredType(ret.Results[0], depth+1) {
+					return false
+				}
+				rets++
+			}
+		}
+		return rets > 0
+	case *ssa.Extract:
+		return false
 	}
 	return false
 }
